@@ -195,6 +195,11 @@ def mesh_cases(seed, count, tag):
         # coordinates in other units, exact powers of two: from 1e-9 (a degree-based mesh at sub-metre
         # resolution is 1e-5) to 1e6 per lattice step
         g["sc"] = rng.choice([0, 0, -2, 3, -14, -17, -24, -30, 12, 20])
+        if g["sc"] in (0, -2, 3) and rng.random() < 0.6:
+            # the same mesh far from the origin of the coordinates (a projected system: easting 5e5, northing
+            # 4.5e6, metre-sized or smaller triangles); exact translation, the specification ignores it
+            g["sc"] = rng.choice([0, -3, -2])
+            g["off"] = rng.choice([[500000, 4500000], [-3000000, 7000000], [2 ** 24, -(2 ** 25)]])
         n = len(g["pts"])
         yield dict(kind="grid", id="%s-%d-%d" % (tag, seed, i), grid=g, queries=_queries(rng, n, False, 2 * n),
                    iter=[-1, 1])
